@@ -208,6 +208,58 @@ func evalAtSentinel(cond ssa.Value) (bool, bool) {
 	return constant.BoolVal(c), true
 }
 
+// positionEndTest: the condition compares the lexer's position with the length
+// of its input, directly or through a helper that returns that comparison;
+// reports whether "true" means the end has been reached.
+func positionEndTest(c ssa.Value) (bool, bool) {
+	isPos := func(v ssa.Value) bool {
+		u, ok := v.(*ssa.UnOp)
+		return ok && u.Op == token.MUL && (fieldKey(u.X) == "lexer.Lexer.position" || fieldKey(u.X) == "lexer.Lexer.readPosition")
+	}
+	isLen := func(v ssa.Value) bool {
+		lc, ok := isBuiltinCall(v, "len")
+		if !ok {
+			return false
+		}
+		u, ok := lc.Call.Args[0].(*ssa.UnOp)
+		return ok && strings.HasPrefix(fieldKey(u.X), "lexer.Lexer.")
+	}
+	switch x := c.(type) {
+	case *ssa.BinOp:
+		switch {
+		case isPos(x.X) && isLen(x.Y):
+			switch x.Op {
+			case token.GEQ, token.GTR, token.EQL:
+				return true, true
+			case token.LSS, token.LEQ, token.NEQ:
+				return false, true
+			}
+		case isLen(x.X) && isPos(x.Y):
+			switch x.Op {
+			case token.LEQ, token.LSS, token.EQL:
+				return true, true
+			case token.GTR, token.GEQ, token.NEQ:
+				return false, true
+			}
+		}
+	case *ssa.UnOp:
+		if x.Op == token.NOT {
+			if v, ok := positionEndTest(x.X); ok {
+				return !v, true
+			}
+		}
+	case *ssa.Call:
+		cal := x.Call.StaticCallee()
+		if cal == nil || len(cal.Blocks) != 1 {
+			return false, false
+		}
+		if ret, ok := terminator(cal.Blocks[0]).(*ssa.Return); ok && len(ret.Results) == 1 {
+			return positionEndTest(ret.Results[0])
+		}
+	}
+	return false, false
+}
+
 func ruleLexProgress(p *Program, r *Reporter) {
 	adv := lexAdvance(p)
 	if adv == nil {
@@ -369,6 +421,14 @@ func ruleLexProgress(p *Program, r *Reporter) {
 					conds = ph.Edges
 				}
 				for _, c := range conds {
+					// the position compared with the length of the input: true at
+					// the end whatever the characters are
+					if atEnd, ok := positionEndTest(c); ok {
+						if (atEnd && out0) || (!atEnd && out1) {
+							exitsAtEnd = true
+						}
+						continue
+					}
 					v, known := evalAtSentinel(c)
 					if !known {
 						continue
@@ -384,7 +444,7 @@ func ruleLexProgress(p *Program, r *Reporter) {
 			case !exitsAtEnd:
 				r.Fail(key, p.Pos(firstPos(h)), "no exit of this loop is taken when the current character is the end-of-input sentinel: on input that ends inside this construct (e.g. a comment or identifier at the very end without a newline) the loop never terminates")
 			default:
-				r.OkNT(key, p.Pos(firstPos(h)), "advances on every cycle and exits at the end-of-input sentinel")
+				r.OkNT(key, p.Pos(firstPos(h)), "advances on every cycle and exits at the end of the input (sentinel character or position test)")
 			}
 		}
 	}
@@ -493,6 +553,71 @@ func ruleEOFSentinel(p *Program, r *Reporter) {
 	}
 	if n == 0 {
 		r.Undecided("end-of-input token", "-", "no store of the EOF token type found in the lexer")
+	}
+	// the same for every other place that asks whether the input has ended:
+	// the sentinel character may only lead to a test of the position
+	isPos := func(v ssa.Value) bool {
+		u, ok := v.(*ssa.UnOp)
+		return ok && u.Op == token.MUL && (fieldKey(u.X) == "lexer.Lexer.position" || fieldKey(u.X) == "lexer.Lexer.readPosition")
+	}
+	isLen := func(v ssa.Value) bool {
+		lc, ok := isBuiltinCall(v, "len")
+		if !ok {
+			return false
+		}
+		u, ok := lc.Call.Args[0].(*ssa.UnOp)
+		return ok && strings.HasPrefix(fieldKey(u.X), "lexer.Lexer.")
+	}
+	posTest := func(b *ssa.BasicBlock) bool {
+		iff, ok := terminator(b).(*ssa.If)
+		if !ok {
+			return false
+		}
+		if bo, ok := iff.Cond.(*ssa.BinOp); ok {
+			return (isPos(bo.X) && isLen(bo.Y)) || (isLen(bo.X) && isPos(bo.Y))
+		}
+		// a helper that makes the comparison
+		if c, ok := iff.Cond.(*ssa.Call); ok && c.Call.StaticCallee() != nil {
+			for _, hb := range c.Call.StaticCallee().Blocks {
+				for _, hi := range hb.Instrs {
+					if bo, ok := hi.(*ssa.BinOp); ok && ((isPos(bo.X) && isLen(bo.Y)) || (isLen(bo.X) && isPos(bo.Y))) {
+						return true
+					}
+				}
+			}
+		}
+		return false
+	}
+	for _, fn := range lexerFns(p) {
+		nth := 0
+		for _, b := range fn.Blocks {
+			iff, ok := terminator(b).(*ssa.If)
+			if !ok {
+				continue
+			}
+			bo, ok := iff.Cond.(*ssa.BinOp)
+			if !ok || (bo.Op != token.EQL && bo.Op != token.NEQ) {
+				continue
+			}
+			x, y := bo.X, bo.Y
+			if _, isC := x.(*ssa.Const); isC {
+				x, y = y, x
+			}
+			ld, ok := x.(*ssa.UnOp)
+			if !ok || ld.Op != token.MUL || fieldKey(ld.X) != "lexer.Lexer.ch" {
+				continue
+			}
+			if k, ok := constInt(y); !ok || k != 0 {
+				continue
+			}
+			nth++
+			key := fmt.Sprintf("%s/sentinel test %d is backed by the position", p.FnName(fn), nth)
+			zero := b.Succs[0]
+			if bo.Op == token.NEQ {
+				zero = b.Succs[1]
+			}
+			r.Check(posTest(zero), key, p.Pos(bo.Pos()), "the zero character only leads to a comparison of the position with the length", "the current character being zero is taken for the end of the input: a NUL character inside a string, a regexp or a comment ends it there — the string is reported as unterminated, and the rest of a comment is read as code")
+		}
 	}
 }
 
